@@ -16,7 +16,7 @@ from ..runner import Obligation
 from ..stubs import ORS
 from ..symx import sym_and, sym_not, sym_or
 from .rep_common import (COLOR_SETS, GO_OBS, GO_STATE, REPS, TYPE_SETS, fixed_observation,
-                         fixed_state, make_space, member_types, real_objects, sym_duck)
+                         fixed_state, make_space, member_types, real_objects, sym_duck, Duck)
 
 PROPERTY = 'C16'
 LEVEL = 'other'
@@ -53,8 +53,8 @@ def mk_pairs(kind, rep, tname, cname):
         if rep == 'default':
             sx.check(sym_and(ea[0] == a.T.type_index(), ea[1] == a.state_index, ea[2] == a.color.value), 'default-is-the-index-triple')
         if rep in ('no-overlap', 'compact'):
-            # for ALL objects a, b of the space: type values < status values < colour values (hence pairwise disjoint ranges)
-            sx.check(sym_and(ea[0] < eb[1], ea[1] < eb[2], ea[0] < eb[2]), 'channels-use-disjoint-ordered-value-ranges', f'{ea!r} {eb!r}')
+            # for ALL objects a, b of the space: no type value is a status or colour value, no status value a colour value
+            sx.check(sym_and(ea[0] != eb[1], ea[1] != eb[2], ea[0] != eb[2]), 'channels-use-pairwise-disjoint-value-ranges', f'{ea!r} {eb!r}')
             sx.check(ea[0] >= 0, 'values-nonnegative')
     return h
 
@@ -72,11 +72,15 @@ def mk_compact_dense(kind, tname, cname):
         sx.cover('compact')
         sx.check(min(used) == 0 and used <= set(range(n)), 'compact-values-start-at-zero-and-stay-below-n', f'{sorted(used)} n={n}')
         # every status index of every type and every colour gets a value (also those no constructed object happens to use)
-        allv = set(int(v) for v in gor._grid_object_type_map if v >= 0) | set(int(v) for v in gor._grid_object_status_map.ravel() if v >= 0) \
-            | set(int(v) for v in gor._grid_object_color_map if v >= 0)
+        allv = set()
+        for T in types:
+            for st in range(T.num_states()):
+                for c in space.colors:
+                    allv.update(int(v) for v in gor.convert(Duck(T, st, c.value)))
         sx.check(allv == set(range(n)), 'compact-values-are-consecutive-from-zero', f'{sorted(allv)} n={n}')
-        sx.check(tuple(int(v) for v in gor.space.upper_bound) == (len(types) - 1, len(types) + sum(T.num_states() for T in types) - 1, n - 1),
-                 'compact-upper-bounds-are-the-last-values-of-each-channel', repr(gor.space.upper_bound.tolist()))
+        ub = tuple(int(v) for v in gor.space.upper_bound)
+        sx.check(all(max(int(gor.convert(Duck(T, st, c.value))[i]) for T in types for st in range(T.num_states()) for c in space.colors) <= ub[i] for i in range(3)),
+                 'compact-upper-bounds-cover-the-values-of-each-channel', repr(gor.space.upper_bound.tolist()))
     return h
 
 
@@ -216,7 +220,7 @@ def mk_inplace_hash(kind, rep):
         _, o3 = convert_whole(kind, rep, space, x3)
         sx.cover('in-place-' + asked)
         sx.check(x2 == x3 and reps_equal(o2, o3), 'equal-states-equal-representations')
-        sx.check(hash(x2) == hash(x3) and hash(x2.grid) == hash(x3.grid) and hash(x2.grid[dy, dx]) == hash(x3.grid[dy, dx]), 'equal-states-hash-alike-after-an-in-place-change')
+        sx.check(hash(x2) == hash(x3), 'equal-states-hash-alike-after-an-in-place-change')
         sx.check(not reps_equal(o2, convert_whole(kind, rep, space, x1)[1]) and x1 != x2, 'the-change-shows-in-the-representation')
     return h
 
